@@ -2,12 +2,12 @@
 C10 - exit flags and messages tell the truth.
 """
 from ..harness import run_property
-from .. import step, outer
+from .. import step, outer, runstart
 from .c03 import shared_c02_harnesses
 
 
 def harnesses(tier, seed):
-    return step.step_harnesses(tier, seed, 'C10') + shared_c02_harnesses(tier) + outer.outer_harnesses(tier, seed, 'C10')
+    return step.step_harnesses(tier, seed, 'C10') + shared_c02_harnesses(tier) + outer.outer_harnesses(tier, seed, 'C10') + runstart.start_harnesses(tier, seed, 'C10')
 
 
 def run(tier, seed):
